@@ -98,9 +98,17 @@ impl Prop for C11 {
         let a = run_history::<sync::Arena>(&case.cfg, &case.ops, mode.clone());
         let b = run_history::<unsync::Arena>(&case.cfg, &case.ops, mode);
         crate::enga::set_owner(None);
-        let viol = compare_runs("C11", &a, &b, "sync", "unsync", true, false);
+        let mut viol = compare_runs("C11", &a, &b, "sync", "unsync", true, false);
         let mut classes = a.classes.clone();
         classes.extend(b.classes.iter().copied());
+        // the open known finding (DESIGN.md 11.2): a history in which a raw rewind left free-list segments above the
+        // cursor - never generated, only replayed from the committed file - carries the finding's signature
+        if classes.contains("rewind-left-segments-above-cursor") {
+            if let Some(v) = viol.as_mut() {
+                v.msg = format!("[{}] {}", v.sig, v.msg);
+                v.sig = "rewind-left-segments-above-cursor".into();
+            }
+        }
         let nontrivial = classes.contains("slow-path") && classes.contains("remainder-split");
         CaseReport { nontrivial, classes, viol }
     }
@@ -194,7 +202,7 @@ impl C17 {
         if case.cfg.backend == Backend::File && !case.ro_tail.is_empty() {
             let mut ops3 = case.before.clone();
             ops3.push(Op::Reopen { mode: 2 + (case.ro_tail.len() as u8 & 1), cap: 0, create: false, pb: false, flags: 0 });
-            ops3.extend(case.ro_tail.iter().map(|p| Op::Rewind { pos: *p }));
+            ops3.extend(case.ro_tail.iter().map(|p| Op::Rewind { pos: *p, raw: false }));
             let c = run_history::<A>(&case.cfg, &ops3, Mode::default());
             classes.extend(c.classes.iter().copied());
             if let Some(v) = c.viol {
